@@ -386,6 +386,7 @@ static void destroy_pool(Sub& s, vh::Rng& rng, int round) {
 
 static void submitter_main(Sub& s) {
     vh::Rng rng(vh::mix(vh::args().xseed(), 100 + s.id));
+    vh::progress();     // start-up (OS threads, vCPUs, photon threads) counts as progress for the stuck detector
     for (int round = 0; round < g_rounds; ++round) {
         s.state.store(S_WAIT_ROUND, vh::MO);
         if (role(round, 0) == s.id) {
@@ -506,6 +507,7 @@ int main(int argc, char** argv) {
             g_vc.run(g_np, nullptr, [&](int v) {
                 g_sub_vcpus[v].store((void*)get_vcpu(), std::memory_order_release);
                 g_pvcpus_ready.fetch_add(1, std::memory_order_acq_rel);
+                vh::progress();
                 // no submitter starts before every submitter vCPU is known to the bodies
                 while (g_pvcpus_ready.load(std::memory_order_acquire) < g_np) thread_usleep(100);
                 std::vector<join_handle*> jh;
